@@ -992,6 +992,41 @@ func (o *ovsdbClient) monitor(ctx context.Context, cookie MonitorCookie, reconne
 	var err error
 	var tableUpdates interface{}
 
+	// Notifications are buffered until the reply of this monitor request has
+	// been applied, for an additional monitor as for the first one: the
+	// notification that follows the reply on the wire may be handled before
+	// the reply is.
+	db.cacheMutex.Lock()
+	wasDeferring := db.deferUpdates
+	db.deferUpdates = true
+	db.cacheMutex.Unlock()
+	// if the request fails the notifications buffered meanwhile belong to
+	// the monitors that exist already
+	stopDeferringLocked := func() {
+		if wasDeferring {
+			return
+		}
+		db.deferUpdates = false
+		for _, update := range db.deferredUpdates {
+			var err error
+			if update.updates != nil {
+				err = db.cache.Populate(*update.updates)
+			}
+			if update.updates2 != nil {
+				err = db.cache.Populate2(*update.updates2)
+			}
+			if err != nil {
+				o.logger.Error(err, "failed to apply a notification buffered during a monitor request that failed")
+			}
+		}
+		db.deferredUpdates = make([]*bufferedUpdate, 0)
+	}
+	stopDeferring := func() {
+		db.cacheMutex.Lock()
+		defer db.cacheMutex.Unlock()
+		stopDeferringLocked()
+	}
+
 	var lastTransactionFound bool
 	switch monitor.Method {
 	case ovsdb.MonitorRPC:
@@ -1011,10 +1046,12 @@ func (o *ovsdbClient) monitor(ctx context.Context, cookie MonitorCookie, reconne
 		}
 		tableUpdates = reply.Updates
 	default:
+		stopDeferring()
 		return fmt.Errorf("unsupported monitor method: %v", monitor.Method)
 	}
 
 	if err != nil {
+		stopDeferring()
 		if err == rpc2.ErrShutdown {
 			return ErrNotConnected
 		}
@@ -1060,6 +1097,7 @@ func (o *ovsdbClient) monitor(ctx context.Context, cookie MonitorCookie, reconne
 	}
 
 	if err != nil {
+		stopDeferringLocked()
 		return err
 	}
 
